@@ -13,7 +13,7 @@ for f in sorted(glob.glob('/verif/evidence/*.json')):
         if pid in lv and lv[pid] != e['level']:
             note = f' LEVEL MISMATCH manifest={lv[pid]} evidence={e["level"]}'; bad += 1
         c = e['coverage']
-        print(f"{pid} ok tier={e['tier']} level={e['level']} evals={c.get('evaluations')} distinct={c.get('distinct_nontrivial')} states={c.get('states')} samples={len(c.get('samples',[]))} exhaustive={c.get('exhaustive')} wall={e['wall_s']:.1f}{note}")
+        print(f"{pid} {'LEVEL-MISMATCH' if note else 'ok'} tier={e['tier']} level={e['level']} evals={c.get('evaluations')} distinct={c.get('distinct_nontrivial')} states={c.get('states')} samples={len(c.get('samples',[]))} exhaustive={c.get('exhaustive')} wall={e['wall_s']:.1f}{note}")
     except Exception as ex:
         bad += 1
         print(f, 'INVALID', str(ex)[:200])
